@@ -46,6 +46,10 @@ type Contract struct {
 	Key      string // fully qualified function name (types.Func.FullName form)
 	Short    string
 	IsLemma  bool
+	IsGuard  bool     // ownership rule of a struct field (see guard.go)
+	GuardTyp string   // struct type name
+	GuardFld string   // guarded field
+	Allow    []string // methods that may be reached through the field by promotion
 	LParams  []SpecParam // lemma parameters
 	Pkg      string
 	File     string
@@ -369,6 +373,32 @@ func (cs *ContractSet) loadContractFile(path, pkgPath string) error {
 				return fmt.Errorf("%s:%d: duplicate lemma %s", path, rl.line, rest)
 			}
 			cs.Funcs[key] = cur
+			continue
+		case "guard":
+			// guard Type.field: only functions under contract touch the field
+			if err := flush(); err != nil {
+				return err
+			}
+			i := strings.LastIndex(rest, ".")
+			if i <= 0 {
+				return fmt.Errorf("%s:%d: guard wants `Type.field`", path, rl.line)
+			}
+			key := "guard:" + pkgPath + "." + rest
+			cur = &Contract{Key: key, Short: "guard." + rest, Pkg: pkgPath, File: path, Line: rl.line, Theory: "int",
+				Opts: map[string]string{}, Loops: map[int]*LoopSpec{}, IsGuard: true, GuardTyp: rest[:i], GuardFld: rest[i+1:]}
+			if _, dup := cs.Funcs[key]; dup {
+				return fmt.Errorf("%s:%d: duplicate guard %s", path, rl.line, rest)
+			}
+			cs.Funcs[key] = cur
+			continue
+		case "allow":
+			if err := flush(); err != nil {
+				return err
+			}
+			if cur == nil || !cur.IsGuard {
+				return fmt.Errorf("%s:%d: allow outside a guard block", path, rl.line)
+			}
+			cur.Allow = append(cur.Allow, strings.Fields(rest)...)
 			continue
 		case "param":
 			if err := flush(); err != nil {
